@@ -392,14 +392,12 @@ theorem acts_hHeartbeat22 (m : Msg) (w : W) :
 theorem acts_hVersion (m : Msg) (w : W) :
     Acts m (hVersion m) w ([], w.faults, none) false
       (if (getProtocol? m.payload).isSome then some m.payload else w.st.pv) (w.st.ibuf.has (markerKey m.node)) := by
-  cases hv : verParse? m.payload with
-  | none =>
-    have hE : ∃ c, getProtocolE m.payload = .error c := by
-      simp only [getProtocolE, hv]; split <;> exact ⟨_, rfl⟩
-    obtain ⟨c, hE⟩ := hE
-    by_cases hc : pyCaught c (clause Gen.excVersion 0) = true <;>
+  cases hv : getProtocolX m.payload with
+  | error e =>
+    have hE : getProtocolE m.payload = .error e.toPy := by simp [getProtocolE, hv]
+    by_cases hc : pyCaught e.toPy (clause Gen.excVersion 0) = true <;>
       acts_run [hVersion, hE, getProtocol?, hv, M.bind, convertExn, hc, M.raise]
-  | some p => acts_run [hVersion, getProtocolE, getProtocol?, hv, M.bind, convertExn, M.pure, M.seq, M.modifySt]
+  | ok p => acts_run [hVersion, getProtocolE, getProtocol?, hv, M.bind, convertExn, M.pure, M.seq, M.modifySt]
 
 /-- The hypothesis of the wake clauses: what is parked for the node are set commands (C07's
 invariant `SbufSet`, which every reachable state satisfies, implies it). -/
